@@ -38,6 +38,12 @@ def run(ctx, res):
             add_to(ctx, res, "bundled_image", fl, pre, [], False, "bundled")
             used = set()
             add_to(ctx, res, "bundled_image", fl, pre, [("file", "new1.bas", b"n" * 3000), ("file", "new2.dat", b"")], True, "bundled")
+            # batches that reach the sides that were never formatted: by --eos, and by a file too big for what side 0 has left
+            add_to(ctx, res, "bundled_image", fl, pre, [("eos",), ("file", "onside1.dat", b"s" * 5000)], False, "bundled")
+            add_to(ctx, res, "bundled_image", fl, pre, [("file", "big.bin", bytes([7]) * (2040 * 157)), ("file", "next.dat", b"x" * 300)], True, "bundled")
+            add_to(ctx, res, "bundled_image", fl, pre, [("eos",), ("file", "fill1.bin", bytes([9]) * (2040 * 158)), ("file", "one.dat", b"1"),
+                                                        ("eos",), ("file", "s3.txt", b"t" * 2041)], True, "bundled")
+            add_to(ctx, res, "bundled_image", fl, pre, [("eos",), ("eos",), ("eos",)] + [("file", "m%d.dat" % k, T.content_for(rng, 2040 * k + 1)) for k in range(5)], False, "bundled")
     res.sample({"pre_image": "bundled 10_lsystem_mo5", "batch": [("new1.bas", 3000), ("new2.dat", 0)]})
     for i in range(ctx.n(16, 300)):
         fl = rng.choice(["fd", "fd", "sd"])
